@@ -1220,11 +1220,21 @@ fn run_keyed<K: KeyKind>(case: &Case, out: &mut impl Write) {
         "slru" => {
             let (p, q) = (case.num("pcap") as usize, case.num("qcap") as usize);
             if default_hasher {
+                // every public way of building the same configuration (`via=` is invisible to the model)
+                let via = case.get("via").unwrap_or("new").to_string();
                 drive(
                     || {
-                        SegmentedCache::<K, TV>::new(p, q)
-                            .map(|c| SlruComp { c })
-                            .map_err(|e| errname(&format!("{:?}", e)))
+                        let r = match via.as_str() {
+                            "builder" => SegmentedCacheBuilder::new(p, q).finalize::<K, TV>(),
+                            "statbuilder" => SegmentedCache::<K, TV>::builder(p, q).finalize::<K, TV>(),
+                            "setters" => SegmentedCacheBuilder::default()
+                                .set_probationary_size(p)
+                                .set_protected_size(q)
+                                .finalize::<K, TV>(),
+                            "frombuilder" => SegmentedCache::<K, TV>::from_builder(SegmentedCacheBuilder::new(p, q)),
+                            _ => SegmentedCache::<K, TV>::new(p, q),
+                        };
+                        r.map(|c| SlruComp { c }).map_err(|e| errname(&format!("{:?}", e)))
                     },
                     case,
                     out,
@@ -1248,11 +1258,33 @@ fn run_keyed<K: KeyKind>(case: &Case, out: &mut impl Write) {
             let size = case.num("size") as usize;
             let (rr, gr) = (case.f64bits("rr"), case.f64bits("gr"));
             if default_hasher {
+                let via = case.get("via").unwrap_or("params").to_string();
                 drive(
                     || {
-                        TwoQueueCache::<K, TV>::with_2q_parameters(size, rr, gr)
-                            .map(|c| TwoQComp { c })
-                            .map_err(|e| errname(&format!("{:?}", e)))
+                        let r = match via.as_str() {
+                            // the generator only uses these three with the default value of the missing ratio(s)
+                            "new" => TwoQueueCache::<K, TV>::new(size),
+                            "recent" => TwoQueueCache::<K, TV>::with_recent_ratio(size, rr),
+                            "ghost" => TwoQueueCache::<K, TV>::with_ghost_ratio(size, gr),
+                            "builder" => TwoQueueCacheBuilder::new(size)
+                                .set_recent_ratio(rr)
+                                .set_ghost_ratio(gr)
+                                .finalize::<K, TV>(),
+                            "statbuilder" => TwoQueueCache::<K, TV>::builder(size)
+                                .set_ghost_ratio(gr)
+                                .set_recent_ratio(rr)
+                                .finalize::<K, TV>(),
+                            "setters" => TwoQueueCacheBuilder::default()
+                                .set_recent_ratio(rr)
+                                .set_size(size)
+                                .set_ghost_ratio(gr)
+                                .finalize::<K, TV>(),
+                            "frombuilder" => TwoQueueCache::<K, TV>::from_builder(
+                                TwoQueueCacheBuilder::new(size).set_recent_ratio(rr).set_ghost_ratio(gr),
+                            ),
+                            _ => TwoQueueCache::<K, TV>::with_2q_parameters(size, rr, gr),
+                        };
+                        r.map(|c| TwoQComp { c }).map_err(|e| errname(&format!("{:?}", e)))
                     },
                     case,
                     out,
@@ -1278,11 +1310,17 @@ fn run_keyed<K: KeyKind>(case: &Case, out: &mut impl Write) {
         "arc" => {
             let size = case.num("size") as usize;
             if default_hasher {
+                let via = case.get("via").unwrap_or("new").to_string();
                 drive(
                     || {
-                        AdaptiveCache::<K, TV>::new(size)
-                            .map(|c| ArcComp { c })
-                            .map_err(|e| errname(&format!("{:?}", e)))
+                        let r = match via.as_str() {
+                            "builder" => AdaptiveCacheBuilder::new(size).finalize::<K, TV>(),
+                            "statbuilder" => AdaptiveCache::<K, TV>::builder(size).finalize::<K, TV>(),
+                            "setters" => AdaptiveCacheBuilder::default().set_size(size).finalize::<K, TV>(),
+                            "frombuilder" => AdaptiveCache::<K, TV>::from_builder(AdaptiveCacheBuilder::new(size)),
+                            _ => AdaptiveCache::<K, TV>::new(size),
+                        };
+                        r.map(|c| ArcComp { c }).map_err(|e| errname(&format!("{:?}", e)))
                     },
                     case,
                     out,
